@@ -25,7 +25,9 @@ func propC18(w *World, r *Report) {
 		n++
 	}
 	r.Scope["functions_that_can_return_an_io_error"] = n
+	r.Conds["readbytes-nil-on-error"] = condNilOnError(w, "(*parser.Parser).ReadBytes")
 	ef.RunErrDrop(mod)
+	RunErrControls(r)
 	ef.RunByteCount(mod)
 	RunSortedBeforeIndexed(w, r, mod)
 	r.Floor("errdrop", 150)
